@@ -275,34 +275,13 @@ deriving Repr, DecidableEq
 
 def regionBase (i : Nat) : Nat := (i + 1) * 2 ^ 32
 
-/-- `k v`, with `v` evaluated first.  (The identity, see `strictNat_eq`; it only makes evaluation inside
-    the Lean kernel — the `decide +kernel` tests of Props/C05.lean — strict instead of lazy.) -/
-@[inline] def strictNat {α : Type} (v : Nat) (k : Nat → α) : α :=
-  match v with
-  | 0 => k 0
-  | .succ n => k (.succ n)
-
-theorem strictNat_eq {α : Type} (v : Nat) (k : Nat → α) : strictNat v k = k v := by
-  cases v <;> rfl
-
-/-- a list with every element evaluated first (the identity, see `strictList_eq`) -/
-def strictList {α : Type} (l : List Nat) (k : List Nat → α) : α :=
-  match l with
-  | [] => k []
-  | x :: xs => strictNat x (fun x => strictList xs (fun xs => k (x :: xs)))
-
-theorem strictList_eq {α : Type} (l : List Nat) (k : List Nat → α) : strictList l k = k l := by
-  induction l generalizing k with
-  | nil => rfl
-  | cons x xs ih => simp [strictList, strictNat_eq, ih]
-
 def getG (s : State) (n : Nat) : Except String Nat :=
   match s.gpr[n]? with
   | some v => .ok v
   | none => .error "no such general register"
 
 def setG (s : State) (n v : Nat) : Except String State :=
-  if n < s.gpr.length then strictList (s.gpr.set n v) (fun l => .ok { s with gpr := l })
+  if n < s.gpr.length then .ok { s with gpr := s.gpr.set n v }
   else .error "no such general register"
 
 def getV (s : State) (n : Nat) : Except String Nat :=
@@ -311,7 +290,7 @@ def getV (s : State) (n : Nat) : Except String Nat :=
   | none => .error "no such vector register"
 
 def setV (s : State) (n v : Nat) : Except String State :=
-  if n < s.vec.length then strictList (s.vec.set n v) (fun l => .ok { s with vec := l })
+  if n < s.vec.length then .ok { s with vec := s.vec.set n v }
   else .error "no such vector register"
 
 def getK (s : State) (n : Nat) : Except String Nat :=
@@ -320,7 +299,7 @@ def getK (s : State) (n : Nat) : Except String Nat :=
   | none => .error "no such opmask register"
 
 def setK (s : State) (n v : Nat) : Except String State :=
-  if n < s.kreg.length then strictList (s.kreg.set n v) (fun l => .ok { s with kreg := l })
+  if n < s.kreg.length then .ok { s with kreg := s.kreg.set n v }
   else .error "no such opmask register"
 
 def lookup (l : List (String × Nat)) (name : String) : Option Nat :=
@@ -335,37 +314,35 @@ def setSlot (l : List (String × Nat)) (name : String) (f : Nat → Nat) : Optio
     if k = name then some ((k, f v) :: rest) else (setSlot rest name f).map ((k, v) :: ·)
 
 /-- read `n` bytes at `addr` -/
-def readMem (s : State) (addr n : Nat) : Except String (List Nat) :=
+def readMem (mem : List Region) (addr n : Nat) : Except String (List Nat) :=
   let r := addr / 2 ^ 32
   let off := addr % 2 ^ 32
   if r = 0 then .error "access below the first region (nil pointer?)" else
-  match s.mem[r - 1]? with
+  match mem[r - 1]? with
   | none => .error "access outside every region"
   | some reg =>
     if off + n ≤ reg.bytes.length then .ok ((reg.bytes.drop off).take n)
     else .error ("read past the end of region " ++ reg.name)
 
 /-- write the bytes `bs` at `addr` -/
-def writeMem (s : State) (addr : Nat) (bs : List Nat) : Except String State :=
+def writeMem (mem : List Region) (addr : Nat) (bs : List Nat) : Except String (List Region) :=
   let r := addr / 2 ^ 32
   let off := addr % 2 ^ 32
   if r = 0 then .error "access below the first region (nil pointer?)" else
-  match s.mem[r - 1]? with
+  match mem[r - 1]? with
   | none => .error "access outside every region"
   | some reg =>
     if !reg.writable then .error ("write to read-only region " ++ reg.name) else
     if off + bs.length ≤ reg.bytes.length then
-      strictList (reg.bytes.take off ++ bs ++ reg.bytes.drop (off + bs.length)) (fun bytes =>
-        let reg' : Region := ⟨reg.name, bytes, true⟩
-        .ok { s with mem := s.mem.set (r - 1) reg' })
+      .ok (mem.set (r - 1) ⟨reg.name, reg.bytes.take off ++ bs ++ reg.bytes.drop (off + bs.length), true⟩)
     else .error ("write past the end of region " ++ reg.name)
 
 /-- little-endian value of `n` bytes at `addr` -/
 def loadLE (s : State) (addr n : Nat) : Except String Nat :=
-  (readMem s addr n).map (unlanes 8)
+  (readMem s.mem addr n).map (unlanes 8)
 
 def storeLE (s : State) (addr n v : Nat) : Except String State :=
-  writeMem s addr (lanes 8 n v)
+  (writeMem s.mem addr (lanes 8 n v)).map (fun m => { s with mem := m })
 
 /-- 64-bit two's complement of an immediate -/
 def imm64 (v : Int) : Nat := (v % (2 ^ 64 : Int)).toNat
@@ -481,222 +458,280 @@ def storeMasked (s : State) (addr k v : Nat) (n : Nat) : Except String State :=
   (List.range n).foldlM (fun s j =>
     if (k >>> j) % 2 = 1 then storeLE s (addr + 4 * j) 4 (lane 32 j v) else pure s) s
 
-/-- a non-branching instruction -/
-def execD (s : State) (i : DInstr) : Except String State :=
-  let vl := i.vw
-  match i.mn, i.ops with
-  /- ---- vector: three registers ---- -/
-  | mn@(.VPXORD), [.reg (.vec a), .reg (.vec b), .reg (.vec d)]
-  | mn@(.VPANDD), [.reg (.vec a), .reg (.vec b), .reg (.vec d)]
-  | mn@(.VPADDD), [.reg (.vec a), .reg (.vec b), .reg (.vec d)]
-  | mn@(.VPSHUFB), [.reg (.vec a), .reg (.vec b), .reg (.vec d)]
-  | mn@(.VPUNPCKLDQ), [.reg (.vec a), .reg (.vec b), .reg (.vec d)]
-  | mn@(.VPUNPCKHDQ), [.reg (.vec a), .reg (.vec b), .reg (.vec d)]
-  | mn@(.VPUNPCKLQDQ), [.reg (.vec a), .reg (.vec b), .reg (.vec d)]
-  | mn@(.VPUNPCKHQDQ), [.reg (.vec a), .reg (.vec b), .reg (.vec d)]
-  | mn@(.VPERMQ), [.reg (.vec a), .reg (.vec b), .reg (.vec d)] =>
-    if !validVl vl then .error "vector length" else do
+/-! ### vector instructions with register operands -/
+
+/-- `OP a, b, dst` and `OP a, b, k, dst` -/
+def exVec3 (s : State) (mn : Mn) (vl : Nat) (ops : List Opd) : Except String State :=
+  if !validVl vl then .error "vector length" else
+  match ops with
+  | [.reg (.vec a), .reg (.vec b), .reg (.vec d)] => do
     let av ← getV s a
     let bv ← getV s b
     match vec3 mn vl av bv with
     | some (r, _) => setV s d r
     | none => badShape
-  | mn@(.VPSHUFB), [.reg (.vec a), .reg (.vec b), .reg (.k k), .reg (.vec d)]
-  | mn@(.VPERMQ), [.reg (.vec a), .reg (.vec b), .reg (.k k), .reg (.vec d)] =>
-    if !validVl vl then .error "vector length" else do
-    let av ← getV s a
-    let bv ← getV s b
-    let kv ← getK s k
-    let old ← getV s d
-    match vec3 mn vl av bv with
-    | some (r, w) => setV s d (mergeMask w (8 * vl / w) kv r old)
-    | none => badShape
-  /- ---- vector: immediate + one source ---- -/
-  | mn@(.VPROLD), [.imm v, .reg (.vec a), .reg (.vec d)]
-  | mn@(.VPSLLDQ), [.imm v, .reg (.vec a), .reg (.vec d)]
-  | mn@(.VPSRLDQ), [.imm v, .reg (.vec a), .reg (.vec d)]
-  | mn@(.VPSRLW), [.imm v, .reg (.vec a), .reg (.vec d)]
-  | mn@(.VPSLLQ), [.imm v, .reg (.vec a), .reg (.vec d)]
-  | mn@(.VPERMQ), [.imm v, .reg (.vec a), .reg (.vec d)] =>
-    if !validVl vl then .error "vector length" else do
+  | [.reg (.vec a), .reg (.vec b), .reg (.k k), .reg (.vec d)] =>
+    -- merge-masked forms occurring in the listings
+    if mn = .VPSHUFB ∨ mn = .VPERMQ then do
+      let av ← getV s a
+      let bv ← getV s b
+      let kv ← getK s k
+      let old ← getV s d
+      match vec3 mn vl av bv with
+      | some (r, w) => setV s d (mergeMask w (8 * vl / w) kv r old)
+      | none => badShape
+    else badShape
+  | _ => badShape
+
+/-- `OP $imm8, a, dst` -/
+def exVecImm (s : State) (mn : Mn) (vl : Nat) (ops : List Opd) : Except String State :=
+  if !validVl vl then .error "vector length" else
+  match ops with
+  | [.imm v, .reg (.vec a), .reg (.vec d)] => do
     let av ← getV s a
     match vecImm mn vl (imm64 v % 256) av with
     | some r => setV s d r
     | none => badShape
-  /- ---- vector: immediate + two sources ---- -/
-  | mn@(.VGF2P8AFFINEQB), [.imm v, .reg (.vec a), .reg (.vec b), .reg (.vec d)]
-  | mn@(.VGF2P8AFFINEINVQB), [.imm v, .reg (.vec a), .reg (.vec b), .reg (.vec d)]
-  | mn@(.VPCLMULQDQ), [.imm v, .reg (.vec a), .reg (.vec b), .reg (.vec d)]
-  | mn@(.VALIGND), [.imm v, .reg (.vec a), .reg (.vec b), .reg (.vec d)] =>
-    if !validVl vl then .error "vector length" else do
+  | _ => badShape
+
+/-- `OP $imm8, a, b, dst` -/
+def exVecImm2 (s : State) (mn : Mn) (vl : Nat) (ops : List Opd) : Except String State :=
+  if !validVl vl then .error "vector length" else
+  match ops with
+  | [.imm v, .reg (.vec a), .reg (.vec b), .reg (.vec d)] => do
     let av ← getV s a
     let bv ← getV s b
     match vecImm2 mn vl (imm64 v % 256) av bv with
     | some r => setV s d r
     | none => badShape
-  /- ---- vector moves ---- -/
-  | .VMOVDQU32, [.mem base idx sc disp, .reg (.vec d)] =>
-    if !validVl vl then .error "vector length" else do
+  | _ => badShape
+
+/-! ### vector moves -/
+
+/-- VMOVDQU32: load, masked load, store, masked store (dword granularity) -/
+def exVmovdqu32 (s : State) (vl : Nat) (ops : List Opd) : Except String State :=
+  if !validVl vl then .error "vector length" else
+  match ops with
+  | [.mem base idx sc disp, .reg (.vec d)] => do
     let addr ← effAddr s base idx sc disp
     let v ← loadLE s addr vl
     setV s d v
-  | .VMOVDQU32, [.mem base idx sc disp, .reg (.k k), .reg (.vec d)] =>
-    if !validVl vl then .error "vector length" else do
+  | [.mem base idx sc disp, .reg (.k k), .reg (.vec d)] => do
     let addr ← effAddr s base idx sc disp
     let kv ← getK s k
     let old ← getV s d
     let ds ← loadMasked s addr kv old (vl / 4)
     setV s d (unlanes 32 ds)
-  | .VMOVDQU32, [.reg (.vec a), .mem base idx sc disp] =>
-    if !validVl vl then .error "vector length" else do
+  | [.reg (.vec a), .mem base idx sc disp] => do
     let addr ← effAddr s base idx sc disp
     let av ← getV s a
     storeLE s addr vl av
-  | .VMOVDQU32, [.reg (.vec a), .reg (.k k), .mem base idx sc disp] =>
-    if !validVl vl then .error "vector length" else do
+  | [.reg (.vec a), .reg (.k k), .mem base idx sc disp] => do
     let addr ← effAddr s base idx sc disp
     let av ← getV s a
     let kv ← getK s k
     storeMasked s addr kv av (vl / 4)
-  | .VMOVDQA64, [.reg (.vec a), .reg (.vec d)]
-  | .VMOVAPD, [.reg (.vec a), .reg (.vec d)] =>
-    if !validVl vl then .error "vector length" else do
+  | _ => badShape
+
+/-- VMOVDQA64 / VMOVAPD register to register -/
+def exVmovReg (s : State) (vl : Nat) (ops : List Opd) : Except String State :=
+  if !validVl vl then .error "vector length" else
+  match ops with
+  | [.reg (.vec a), .reg (.vec d)] => do
     let av ← getV s a
     setV s d (av % 2 ^ (8 * vl))
-  | .VPBROADCASTD, [.reg (.vec a), .reg (.vec d)] =>
-    if !validVl vl then .error "vector length" else do
+  | _ => badShape
+
+/-- VPBROADCASTD from the low dword of a vector or general register -/
+def exBroadcastD (s : State) (vl : Nat) (ops : List Opd) : Except String State :=
+  if !validVl vl then .error "vector length" else
+  match ops with
+  | [.reg (.vec a), .reg (.vec d)] => do
     let av ← getV s a
     setV s d (unlanes 32 (List.replicate (vl / 4) (av % 2 ^ 32)))
-  | .VPBROADCASTD, [.reg (.gpr a), .reg (.vec d)] =>
-    if !validVl vl then .error "vector length" else do
+  | [.reg (.gpr a), .reg (.vec d)] => do
     let av ← getG s a
     setV s d (unlanes 32 (List.replicate (vl / 4) (av % 2 ^ 32)))
-  | .VBROADCASTI32X2, [.mem base idx sc disp, .reg (.vec d)] =>
-    if !validVl vl then .error "vector length" else do
+  | _ => badShape
+
+/-- VBROADCASTI32X2 m64 (`w` = 8) / VBROADCASTI32X4 m128 (`w` = 16) -/
+def exBroadcastMem (s : State) (w vl : Nat) (ops : List Opd) : Except String State :=
+  if !validVl vl || vl < 2 * w && w == 16 then .error "vector length" else
+  match ops with
+  | [.mem base idx sc disp, .reg (.vec d)] => do
     let addr ← effAddr s base idx sc disp
-    let v ← loadLE s addr 8
-    setV s d (unlanes 64 (List.replicate (vl / 8) v))
-  | .VBROADCASTI32X4, [.mem base idx sc disp, .reg (.vec d)] =>
-    if !(vl == 32 || vl == 64) then .error "vector length" else do
-    let addr ← effAddr s base idx sc disp
-    let v ← loadLE s addr 16
-    setV s d (unlanes 128 (List.replicate (vl / 16) v))
-  /- legacy SSE forms: bits 128… of the register are kept -/
-  | .MOVL, [.mem base idx sc disp, .reg (.vec d)] => do      -- MOVD xmm, m32
-    let addr ← effAddr s base idx sc disp
-    let v ← loadLE s addr 4
-    let old ← getV s d
-    setV s d (old - old % 2 ^ 128 + v)
-  | .MOVQ, [.reg (.gpr a), .reg (.vec d)] => do               -- MOVQ xmm, r64
-    let v ← getG s a
-    let old ← getV s d
-    setV s d (old - old % 2 ^ 128 + v % 2 ^ 64)
-  | .PSLLO, [.imm v, .reg (.vec d)] => do                     -- PSLLDQ xmm, imm8
+    let v ← loadLE s addr w
+    setV s d (unlanes (8 * w) (List.replicate (vl / w) v))
+  | _ => badShape
+
+/-- PSLLO (= PSLLDQ xmm, imm8; legacy SSE: bits 128… kept) -/
+def exPsllo (s : State) (ops : List Opd) : Except String State :=
+  match ops with
+  | [.imm v, .reg (.vec d)] => do
     let old ← getV s d
     setV s d (old - old % 2 ^ 128 + ((old % 2 ^ 128) <<< (8 * (imm64 v % 256))) % 2 ^ 128)
-  | .KMOVW, [.reg (.gpr a), .reg (.k d)] => do
+  | _ => badShape
+
+def exKmovw (s : State) (ops : List Opd) : Except String State :=
+  match ops with
+  | [.reg (.gpr a), .reg (.k d)] => do
     let v ← getG s a
     setK s d (v % 2 ^ 16)
-  /- ---- general moves ---- -/
-  | .LEAQ, [.sym name off, .reg (.gpr d)] => do
+  | _ => badShape
+
+/-! ### general moves -/
+
+def exLeaq (s : State) (ops : List Opd) : Except String State :=
+  match ops with
+  | [.sym name off, .reg (.gpr d)] =>
     match lookup s.syms name with
     | some a => setG s d (a + off)
     | none => .error ("unknown symbol " ++ name)
-  | .MOVQ, [.frame name _, .reg (.gpr d)] => do
-    match lookup s.frame name with
-    | some v => setG s d v
-    | none => .error ("unknown frame slot " ++ name)
-  | .MOVQ, [.imm v, .frame name _] => do
-    match setSlot s.frame name (fun _ => imm64 v) with
-    | some f => pure { s with frame := f }
-    | none => .error ("unknown frame slot " ++ name)
-  | .MOVQ, [.reg (.gpr a), .frame name _] => do
-    let v ← getG s a
-    match setSlot s.frame name (fun _ => v) with
-    | some f => pure { s with frame := f }
-    | none => .error ("unknown frame slot " ++ name)
-  | .MOVL, [.reg (.gpr a), .frame name _] => do
-    let v ← getG s a
-    match setSlot s.frame name (fun old => old - old % 2 ^ 32 + v % 2 ^ 32) with
-    | some f => pure { s with frame := f }
-    | none => .error ("unknown frame slot " ++ name)
-  | .MOVQ, [.imm v, .reg (.gpr d)] => setG s d (imm64 v)
-  | .MOVL, [.imm v, .reg (.gpr d)] => setG s d (imm64 v % 2 ^ 32)
-  | .MOVQ, [.reg (.gpr a), .reg (.gpr d)] => do
-    let v ← getG s a
-    setG s d v
-  | mn@(.MOVQ), [.mem base idx sc disp, .reg (.gpr d)]
-  | mn@(.MOVL), [.mem base idx sc disp, .reg (.gpr d)]
-  | mn@(.MOVW), [.mem base idx sc disp, .reg (.gpr d)]
-  | mn@(.MOVB), [.mem base idx sc disp, .reg (.gpr d)] => do
-    let w := aluWidth mn
+  | _ => badShape
+
+def writeSlot (s : State) (name : String) (f : Nat → Nat) : Except String State :=
+  match setSlot s.frame name f with
+  | some fr => .ok { s with frame := fr }
+  | none => .error ("unknown frame slot " ++ name)
+
+/-- MOVQ / MOVL / MOVW / MOVB (`w` = 8, 4, 2, 1 bytes) -/
+def exMov (s : State) (mn : Mn) (ops : List Opd) : Except String State :=
+  let w := aluWidth mn
+  match ops with
+  /- legacy SSE forms: bits 128… of the register are kept -/
+  | [.mem base idx sc disp, .reg (.vec d)] =>            -- MOVD xmm, m32
+    if mn = .MOVL then do
+      let addr ← effAddr s base idx sc disp
+      let v ← loadLE s addr 4
+      let old ← getV s d
+      setV s d (old - old % 2 ^ 128 + v)
+    else badShape
+  | [.reg (.gpr a), .reg (.vec d)] =>                     -- MOVQ xmm, r64
+    if mn = .MOVQ then do
+      let v ← getG s a
+      let old ← getV s d
+      setV s d (old - old % 2 ^ 128 + v % 2 ^ 64)
+    else badShape
+  /- frame slots -/
+  | [.frame name _, .reg (.gpr d)] =>
+    if mn = .MOVQ then
+      match lookup s.frame name with
+      | some v => setG s d v
+      | none => .error ("unknown frame slot " ++ name)
+    else badShape
+  | [.imm v, .frame name _] =>
+    if mn = .MOVQ then writeSlot s name (fun _ => imm64 v) else badShape
+  | [.reg (.gpr a), .frame name _] =>
+    if mn = .MOVQ then do
+      let v ← getG s a
+      writeSlot s name (fun _ => v)
+    else if mn = .MOVL then do
+      let v ← getG s a
+      writeSlot s name (fun old => old - old % 2 ^ 32 + v % 2 ^ 32)
+    else badShape
+  /- registers and memory -/
+  | [.imm v, .reg (.gpr d)] =>
+    if mn = .MOVQ then setG s d (imm64 v)
+    else if mn = .MOVL then setG s d (imm64 v % 2 ^ 32)
+    else badShape
+  | [.reg (.gpr a), .reg (.gpr d)] =>
+    if mn = .MOVQ then do
+      let v ← getG s a
+      setG s d v
+    else badShape
+  | [.mem base idx sc disp, .reg (.gpr d)] => do
     let addr ← effAddr s base idx sc disp
     let v ← loadLE s addr w
     let old ← getG s d
     setG s d (mergeG w old v)
-  | mn@(.MOVQ), [.reg (.gpr a), .mem base idx sc disp]
-  | mn@(.MOVL), [.reg (.gpr a), .mem base idx sc disp]
-  | mn@(.MOVW), [.reg (.gpr a), .mem base idx sc disp]
-  | mn@(.MOVB), [.reg (.gpr a), .mem base idx sc disp] => do
-    let w := aluWidth mn
+  | [.reg (.gpr a), .mem base idx sc disp] => do
     let addr ← effAddr s base idx sc disp
     let v ← getG s a
     storeLE s addr w v
-  | mn@(.MOVQ), [.imm v, .mem base idx sc disp]
-  | mn@(.MOVB), [.imm v, .mem base idx sc disp] => do
-    let w := aluWidth mn
-    let addr ← effAddr s base idx sc disp
-    storeLE s addr w (imm64 v)
-  /- ---- integer arithmetic ---- -/
-  | mn@(.ADDQ), [.imm v, .reg (.gpr d)]
-  | mn@(.SUBQ), [.imm v, .reg (.gpr d)]
-  | mn@(.ANDQ), [.imm v, .reg (.gpr d)]
-  | mn@(.SHLQ), [.imm v, .reg (.gpr d)]
-  | mn@(.SHRQ), [.imm v, .reg (.gpr d)] => do
-    let old ← getG s d
-    let (r, f) ← alu mn 8 (imm64 v) old s.flags
-    let s ← setG s d r
-    pure { s with flags := f }
-  | mn@(.ADDQ), [.reg (.gpr a), .reg (.gpr d)]
-  | mn@(.SUBQ), [.reg (.gpr a), .reg (.gpr d)] => do
-    let src ← getG s a
-    let old ← getG s d
-    let (r, f) ← alu mn 8 src old s.flags
-    let s ← setG s d r
-    pure { s with flags := f }
-  | mn@(.ORB), [.reg (.gpr a), .reg (.gpr d)] => do
-    let src ← getG s a
-    let old ← getG s d
-    let (r, f) ← alu mn 1 (src % 256) (old % 256) s.flags
-    let s ← setG s d (mergeG 1 old r)
-    pure { s with flags := f }
-  | mn@(.ORB), [.mem base idx sc disp, .reg (.gpr d)]
-  | mn@(.ORQ), [.mem base idx sc disp, .reg (.gpr d)] => do
-    let w := aluWidth mn
-    let addr ← effAddr s base idx sc disp
-    let src ← loadLE s addr w
-    let old ← getG s d
-    let (r, f) ← alu mn w src (old % 2 ^ (8 * w)) s.flags
-    let s ← setG s d (mergeG w old r)
-    pure { s with flags := f }
-  | mn@(.XORB), [.reg (.gpr a), .mem base idx sc disp]
-  | mn@(.XORQ), [.reg (.gpr a), .mem base idx sc disp] => do
-    let w := aluWidth mn
-    let addr ← effAddr s base idx sc disp
-    let src ← getG s a
-    let old ← loadLE s addr w
-    let (r, f) ← alu mn w (src % 2 ^ (8 * w)) old s.flags
-    let s ← storeLE s addr w r
-    pure { s with flags := f }
-  | .CMPQ, [.reg (.gpr a), .imm v] => do
+  | [.imm v, .mem base idx sc disp] =>
+    if mn = .MOVQ ∨ mn = .MOVB then do
+      let addr ← effAddr s base idx sc disp
+      storeLE s addr w (imm64 v)
+    else badShape
+  | _ => badShape
+
+/-! ### integer arithmetic -/
+
+def withFlags (r : Except String State) (f : Flags) : Except String State :=
+  r.map (fun s => { s with flags := f })
+
+/-- ADDQ SUBQ ANDQ ORQ XORQ ORB XORB SHLQ SHRQ -/
+def exAlu (s : State) (mn : Mn) (ops : List Opd) : Except String State :=
+  let w := aluWidth mn
+  match ops with
+  | [.imm v, .reg (.gpr d)] =>
+    if mn = .ADDQ ∨ mn = .SUBQ ∨ mn = .ANDQ ∨ mn = .SHLQ ∨ mn = .SHRQ then do
+      let old ← getG s d
+      let (r, f) ← alu mn 8 (imm64 v) old s.flags
+      withFlags (setG s d r) f
+    else badShape
+  | [.reg (.gpr a), .reg (.gpr d)] =>
+    if mn = .ADDQ ∨ mn = .SUBQ ∨ mn = .ORB then do
+      let src ← getG s a
+      let old ← getG s d
+      let (r, f) ← alu mn w (src % 2 ^ (8 * w)) (old % 2 ^ (8 * w)) s.flags
+      withFlags (setG s d (mergeG w old r)) f
+    else badShape
+  | [.mem base idx sc disp, .reg (.gpr d)] =>
+    if mn = .ORB ∨ mn = .ORQ then do
+      let addr ← effAddr s base idx sc disp
+      let src ← loadLE s addr w
+      let old ← getG s d
+      let (r, f) ← alu mn w src (old % 2 ^ (8 * w)) s.flags
+      withFlags (setG s d (mergeG w old r)) f
+    else badShape
+  | [.reg (.gpr a), .mem base idx sc disp] =>
+    if mn = .XORB ∨ mn = .XORQ then do
+      let addr ← effAddr s base idx sc disp
+      let src ← getG s a
+      let old ← loadLE s addr w
+      let (r, f) ← alu mn w (src % 2 ^ (8 * w)) old s.flags
+      withFlags (storeLE s addr w r) f
+    else badShape
+  | _ => badShape
+
+/-- CMPQ a, b: the flags of `a - b` -/
+def exCmpq (s : State) (ops : List Opd) : Except String State :=
+  match ops with
+  | [.reg (.gpr a), .imm v] => do
     let x ← getG s a
     pure { s with flags := (subF 8 x (imm64 v)).2 }
-  | .CMPQ, [.reg (.gpr a), .reg (.gpr b)] => do
+  | [.reg (.gpr a), .reg (.gpr b)] => do
     let x ← getG s a
     let y ← getG s b
     pure { s with flags := (subF 8 x y).2 }
-  | .NOP, [] => .ok s
-  | _, _ => badShape
+  | _ => badShape
+
+/-- a non-branching instruction -/
+def execD (s : State) (i : DInstr) : Except String State :=
+  match i.mn with
+  | .VPXORD | .VPANDD | .VPADDD | .VPSHUFB | .VPUNPCKLDQ | .VPUNPCKHDQ | .VPUNPCKLQDQ | .VPUNPCKHQDQ =>
+    exVec3 s i.mn i.vw i.ops
+  | .VPROLD | .VPSLLDQ | .VPSRLDQ | .VPSRLW | .VPSLLQ => exVecImm s i.mn i.vw i.ops
+  | .VPERMQ =>
+    match i.ops with
+    | .imm _ :: _ => exVecImm s i.mn i.vw i.ops
+    | _ => exVec3 s i.mn i.vw i.ops
+  | .VGF2P8AFFINEQB | .VGF2P8AFFINEINVQB | .VPCLMULQDQ | .VALIGND => exVecImm2 s i.mn i.vw i.ops
+  | .VMOVDQU32 => exVmovdqu32 s i.vw i.ops
+  | .VMOVDQA64 | .VMOVAPD => exVmovReg s i.vw i.ops
+  | .VPBROADCASTD => exBroadcastD s i.vw i.ops
+  | .VBROADCASTI32X2 => exBroadcastMem s 8 i.vw i.ops
+  | .VBROADCASTI32X4 => exBroadcastMem s 16 i.vw i.ops
+  | .PSLLO => exPsllo s i.ops
+  | .KMOVW => exKmovw s i.ops
+  | .LEAQ => exLeaq s i.ops
+  | .MOVQ | .MOVL | .MOVW | .MOVB => exMov s i.mn i.ops
+  | .ADDQ | .SUBQ | .ANDQ | .ORQ | .XORQ | .ORB | .XORB | .SHLQ | .SHRQ => exAlu s i.mn i.ops
+  | .CMPQ => exCmpq s i.ops
+  | .NOP => match i.ops with | [] => .ok s | _ => badShape
+  | .JMP | .JEQ | .JNE | .JLT | .JGE | .JGT | .JLE | .RET => .error "control transfer"
+
 
 /-- the branching mnemonics -/
 def Mn.isControl (mn : Mn) : Bool :=
@@ -729,31 +764,31 @@ def exec (s : State) (i : Instr) : Except String State := do
 
 /-! ## 7. Running a routine -/
 
-abbrev Routine := Array DInstr
+abbrev Routine := List DInstr
 
-def Routine.ofListing (l : List Instr) : Except String Routine :=
-  (l.mapM decode).map List.toArray
+def Routine.ofListing (l : List Instr) : Except String Routine := l.mapM decode
 
-def findPc (r : Routine) (pc : Nat) : Option Nat :=
-  r.findIdx? (fun i => i.pc == pc)
+/-- the instructions from byte offset `pc` on -/
+def findPc (r : Routine) (pc : Nat) : Option (List DInstr) :=
+  match r with
+  | [] => none
+  | i :: rest => if i.pc = pc then some (i :: rest) else findPc rest pc
 
-/-- from instruction number `idx` until `RET` -/
-def runFrom (r : Routine) : Nat → Nat → State → Except String State
+/-- run the instructions `cur` (a suffix of the routine `r`) until `RET` -/
+def runFrom (r : Routine) : Nat → List DInstr → State → Except String State
   | 0, _, _ => .error "out of fuel"
-  | fuel + 1, idx, s =>
-    match r[idx]? with
-    | none => .error "fell off the end of the routine"
-    | some i =>
-      match stepD s i with
-      | .error e => .error (e ++ " at pc " ++ toString i.pc)
-      | .ok (s', .fall) => runFrom r fuel (idx + 1) s'
-      | .ok (s', .jump pc) =>
-        match findPc r pc with
-        | some j => runFrom r fuel j s'
-        | none => .error "branch target is not an instruction"
-      | .ok (s', .ret) => .ok s'
+  | _ + 1, [], _ => .error "fell off the end of the routine"
+  | fuel + 1, i :: rest, s =>
+    match stepD s i with
+    | .error e => .error (e ++ " at pc " ++ toString i.pc)
+    | .ok (s', .fall) => runFrom r fuel rest s'
+    | .ok (s', .jump pc) =>
+      match findPc r pc with
+      | some cur => runFrom r fuel cur s'
+      | none => .error "branch target is not an instruction"
+    | .ok (s', .ret) => .ok s'
 
-def runRoutine (r : Routine) (fuel : Nat) (s : State) : Except String State := runFrom r fuel 0 s
+def runRoutine (r : Routine) (fuel : Nat) (s : State) : Except String State := runFrom r fuel r s
 
 /-- run a listing from its entry to `RET` -/
 def run (l : List Instr) (fuel : Nat) (s : State) : Except String State := do
